@@ -891,7 +891,7 @@ class HTTPResponse(BaseHTTPResponse):
 
         with self._error_catcher():
             data = self._fp_read(amt, read1=read1) if not fp_closed else b""
-            if amt is not None and amt != 0 and not data:
+            if (amt is not None or read1) and amt != 0 and not data:
                 # Platform-specific: Buggy versions of Python.
                 # Close the connection when no data is returned
                 #
